@@ -10,7 +10,7 @@ EXPLANATION = (
     "each undo exactly one pop of each and one decrement (effect summaries by path enumeration of the MIR with the "
     "Board API opaque); (R2) per square, undo's put/remove sequence is the reverse of apply's with put and remove "
     "exchanged and each piece put back comes from the matching source (mover, recorded capture, kind constant); "
-    "(R4) every ChessMove::apply / toggle_turn on a board the function did not create is matched by undo / a second "
+    "(R3) the position key is restored: every placement / rights / en-passant change toggles exactly the keys of the old and the new stack top with the values really on the stacks, on the push side and on the pop side alike (imports C05.R1-R3); (R4) every ChessMove::apply / toggle_turn on a board the function did not create is matched by undo / a second "
     "toggle on every path to a return or loop head, except in the listed mutator roots. Bit-for-bit equality of "
     "whole states over arbitrary histories is NOT decided; these are necessary conditions of it.")
 ASSUMPTIONS = [
